@@ -1,6 +1,7 @@
 import ConfModel.Driver.Common
 import ConfModel.Model.Echo
 import ConfModel.Spec.EchoAgree
+import ConfModel.Model.EchoLoad
 namespace ConfModel.Driver.C02
 open Lean ConfModel.Driver ConfModel.Echo
 
@@ -168,6 +169,32 @@ def judgeE2E (inp impl : Json) : Verdict :=
         else if !gOk then s!"suite VG: {gPerms.length} permutations, the model expects {gWant} and none against a gRPC peer"
         else "" }
 
+/-! ### the load half: suites described by shape -/
+
+def msgOf : String → EchoLoad.Msg
+  | "unary" => .unary | "idempotent" => .idempotent | "clientStream" => .clientStream
+  | "serverStream" => .serverStream | "bidi" => .bidi | "unimplemented" => .unimplemented
+  | "other" => .other | _ => .broken
+
+def dirOf : String → EchoLoad.Dir
+  | "fits" => .fits | "misfit" => .misfit | _ => .absent
+
+def lcaseOf (j : Json) : EchoLoad.Case :=
+  { name := str (field j "name"), st := nat (field j "st"), service := bool (field j "service"), method := bool (field j "method"),
+    msgs := (strList (field j "msgs")).map msgOf, rawRequest := bool (field j "rawRequest"),
+    rawResponse := bool (field j "rawResponse"), explicit := bool (field j "explicit"),
+    expand := (strList (field j "expand")).map dirOf }
+
+def lsuiteOf (j : Json) : EchoLoad.Suite :=
+  { name := str (field j "name"), mode := nat (field j "mode"), onlyConnect := bool (field j "onlyConnect"),
+    codecs := natList (field j "codecs"), tls := bool (field j "tls"), certs := bool (field j "certs"),
+    get := bool (field j "get"), cvm := nat (field j "cvm"), cases := (arr (field j "cases")).map lcaseOf }
+
+def popCaseOf (j : Json) : EchoLoad.Case :=
+  { name := "p", st := nat (field j "st"), service := false, method := false,
+    msgs := (strList (field j "msgs")).map msgOf, rawRequest := false, rawResponse := false,
+    explicit := bool (field j "explicit"), expand := [] }
+
 def allCases (inp : Json) : List TC := ((arr (field inp "cases")) ++ (arr (field inp "getCases"))).map tcOf
 
 def handle : Handler := fun op inp impl =>
@@ -218,8 +245,31 @@ def handle : Handler := fun op inp impl =>
         "expectation (or method) stored in the library differs from the model: " ++ toString ((wrong.take 2).map (fun p => str (field p "name") ++ " expected=" ++ (field p "expected").compress)) }
   | "load" =>
     let p := !(isNull (field impl "panic"))
-    { agree := true, holds := !p, nontrivial := true, cls := str (field impl "class"),
-      why := if p then "loading a parseable suite crashed the runner: " ++ str (field impl "panic") else "" }
+    let shapes := arr (field inp "shapes")
+    if shapes.isEmpty then
+      { agree := true, holds := !p, nontrivial := true, cls := str (field impl "class"),
+        why := if p then "loading a parseable suite crashed the runner: " ++ str (field impl "panic") else "" }
+    else
+      -- the model of the validation says whether this input is rejected (and by which branch, if the
+      -- files are visited in the order given)
+      let mode := match str (field inp "mode") with | "client" => 1 | "server" => 2 | _ => 0
+      let m := EchoLoad.loadErr EchoLoad.cfgApplies mode (shapes.map lsuiteOf)
+      let want := match m with | none => "ok" | some _ => "error"
+      { agree := !p && str (field impl "class") == want, holds := !p, nontrivial := m.isSome,
+        model := Json.mkObj [("class", want), ("branch", match m with | none => "" | some e => toString (repr e))],
+        cls := (match m with | none => "accepted" | some e => "rejected:" ++ toString (repr e)),
+        why := if p then "loading a parseable suite crashed the runner: " ++ str (field impl "panic")
+          else if str (field impl "class") == want then "" else "load verdict " ++ str (field impl "class") ++ ", the model of the validation says " ++ want }
+  | "populate" =>
+    let p := !(isNull (field impl "panic"))
+    let c := popCaseOf inp
+    let m := EchoLoad.populateDirect c
+    let want := match m with | none => "ok" | some _ => "error"
+    { agree := !p && str (field impl "class") == want, holds := !p, nontrivial := m.isSome,
+      model := Json.mkObj [("class", want)],
+      cls := (match m with | none => "accepted" | some e => "rejected:" ++ toString (repr e)),
+      why := if p then "deriving the expectation crashed: " ++ str (field impl "panic")
+        else if str (field impl "class") == want then "" else "generator verdict " ++ str (field impl "class") ++ ", the model says " ++ want }
   | "e2e" =>
     -- the main stream must not contain the shape of known finding F07 (it has its own op)
     if (allCases inp).any isF07 then bad "F07-shaped case in the e2e stream" else
